@@ -252,6 +252,54 @@ fn main() {
                         kvs.verif_tree().verif_should_stall() as u8, kvs.verif_tree().verif_should_mandatory() as u8, kvs.verif_tree().verif_ongoing())
                 }
                 "dump" => "DUMPREQ".into(),
+                "versions" => {
+                    // every entry (key, ts, value-or-tombstone) stored in an sst of the current version must be
+                    // what a point read of key AT ts through that version returns: "reachable through the tree"
+                    // for readers at earlier timestamps, not only for the newest version of each key
+                    let snap = kvs.verif_tree().verif_snapshot();
+                    let mut n = 0usize;
+                    let mut bad = String::new();
+                    for name in snap.verif_setsums() {
+                        let path = format!("{root}/sst/{name}.sst");
+                        let Ok(sst) = sst::Sst::<sst::file_manager::FileHandle>::new(sst::SstOptions::default(), &path) else {
+                            bad = format!(" openerr:{name}");
+                            break;
+                        };
+                        let mut c = sst.cursor();
+                        if c.seek_to_first().is_err() {
+                            bad = format!(" cursorerr:{name}");
+                            break;
+                        }
+                        loop {
+                            if c.next().is_err() {
+                                bad = format!(" cursorerr:{name}");
+                                break;
+                            }
+                            let Some(kv) = c.key_value() else { break };
+                            let mut tomb = false;
+                            let got = snap.verif_load_at(kv.key, kv.timestamp, &mut tomb);
+                            n += 1;
+                            let want: Option<Vec<u8>> = kv.value.map(|v| v.to_vec());
+                            let ok = match &got {
+                                Ok(g) => *g == want && (want.is_some() || tomb),
+                                Err(_) => false,
+                            };
+                            if !ok && bad.is_empty() {
+                                bad = format!(
+                                    " {}@{}:got={}:want={}",
+                                    hx0(kv.key),
+                                    kv.timestamp,
+                                    match &got { Ok(Some(v)) => hx0(v), Ok(None) => if tomb { "~".to_string() } else { ".".to_string() }, Err(e) => format!("err:{}", err_class(e)) },
+                                    match &want { Some(v) => hx0(v), None => "~".to_string() }
+                                );
+                            }
+                        }
+                        if !bad.is_empty() {
+                            break;
+                        }
+                    }
+                    if bad.is_empty() { format!("VERSIONS ok {n}") } else { format!("VERSIONS bad{bad}") }
+                }
                 "ls" => format!("LS {}", ls(&root)),
                 "sleep" => { std::thread::sleep(std::time::Duration::from_millis(t[1].parse().unwrap())); "SLEEP".into() }
                 _ => format!("BADOP {}", t[0]),
